@@ -8,6 +8,8 @@ pub(crate) struct SimulationBoundary {
     inverse_width: DVec3,
     pub dimensionality: Dimensionality,
     pub clipping_planes: Vec<HalfSpace>,
+    /// The spacing of the integer grid along the active axes (in the units of the generators).
+    pub grid_spacing: f64,
 }
 
 impl SimulationBoundary {
@@ -77,6 +79,7 @@ impl SimulationBoundary {
             inverse_width: 1. / scale_width,
             dimensionality,
             clipping_planes,
+            grid_spacing: max_width * f64::EPSILON,
         }
     }
 
